@@ -126,6 +126,9 @@ func CallResults(results ...interface{}) CallOption {
 		if len(results) != len(out) {
 			return fmt.Errorf(`bigbuff.CallResults results error: invalid length: mandatory=%d len=%d`, len(out), len(results))
 		}
+		if len(out) > maxFuncOfArgs {
+			return fmt.Errorf(`bigbuff.CallResults results error: invalid length: max=%d len=%d`, maxFuncOfArgs, len(out))
+		}
 		for i, out := range out {
 			if results[i] == nil {
 				return fmt.Errorf(`bigbuff.CallResults results[%d] error: nil not ptr`, i)
@@ -170,6 +173,9 @@ func CallResultsSlice(target interface{}) CallOption {
 			return fmt.Errorf(`bigbuff.CallResultsSlice target error: not slice: %T`, target)
 		}
 		out := typesInOut(config.this.NumOut(), config.this.Out)
+		if len(out) > maxFuncOfArgs {
+			return fmt.Errorf(`bigbuff.CallResultsSlice results error: invalid length: max=%d len=%d`, maxFuncOfArgs, len(out))
+		}
 		{
 			elem := value.Elem().Type().Elem()
 			for i, v := range out {
